@@ -169,6 +169,8 @@ def observe(p, idx, keys, cycle_k=0, ctx=None):
                 ds = ds.copy(freeze=True)
             elif view == 'profiled':
                 ds = lazy_dataset.core.ProfilingDataset(ds)
+            elif view == 'lazy_apply':
+                pass        # (below: only iteration goes through the lazily applied identity)
         except NotImplementedError:
             pass                # a stage without copy() (CycleDataset) refuses loudly: observed directly
     limit = cycle_k if p['op'] == 'cycle' else None
@@ -177,12 +179,13 @@ def observe(p, idx, keys, cycle_k=0, ctx=None):
     r['ordered'] = outcome(lambda: bool(ds.ordered), lambda b: b)
     r['len'] = outcome(lambda: len(ds))
     r['keys'] = outcome(lambda: list(ds.keys()))
-    r['iter'] = run_stream(lambda: ds, limit=limit)
-    r['items'] = run_stream(lambda: ds.items(), limit=limit)
+    dsi = ds.apply(lambda d: d, lazy=True) if (view == 'lazy_apply' and p['op'] != 'cycle') else ds
+    r['iter'] = run_stream(lambda: dsi, limit=limit)
+    r['items'] = run_stream(lambda: dsi.items(), limit=limit)
     # integer indices arrive as Python ints and as numpy integers (what slices / shuffles pass down)
     typed = (lambda i: i, lambda i: i, np.int64, np.int32) if getattr(ctx, 'source_mode', 'pickle') != 'pickle' else (lambda i: i,)
     r['gets'] = [[i, outcome(lambda: ds[typed[t % len(typed)](i)])] for t, i in enumerate(idx)]
     r['getkeys'] = [[k, outcome(lambda: ds[k])] for k in keys]
     # repeatability (C01): iterate again after every other observation
-    r['iter2'] = run_stream(lambda: ds, limit=limit)
+    r['iter2'] = run_stream(lambda: dsi, limit=limit)
     return r, ds
